@@ -176,12 +176,31 @@ type Emitter struct {
 // the caller has since reused, scratch state left over from the previous call).
 var argSlots [12][]float64
 
+// Each slot also has spare capacity after the values, filled with a sentinel: the caller's array
+// goes on after the slice it passed, and that part is not the library's to write to either.
+const slotSentinel = -987654.25
+
+var slotOverrun bool
+
 func slot(k int, vals ...float64) geom.Coord {
-	if cap(argSlots[k]) < len(vals) {
-		argSlots[k] = make([]float64, len(vals), 2*len(vals)+8)
+	// the sentinels written for the previous use of this slot are still there?
+	if old := argSlots[k]; old != nil {
+		full := old[:cap(old)]
+		for i := len(old); i < len(old)+8 && i < len(full); i++ {
+			if full[i] != slotSentinel {
+				slotOverrun = true
+			}
+		}
+	}
+	if cap(argSlots[k]) < len(vals)+8 {
+		argSlots[k] = make([]float64, len(vals), 2*len(vals)+16)
 	}
 	argSlots[k] = argSlots[k][:len(vals)]
 	copy(argSlots[k], vals)
+	full := argSlots[k][:cap(argSlots[k])]
+	for i := len(vals); i < len(vals)+8; i++ {
+		full[i] = slotSentinel
+	}
 	return geom.Coord(argSlots[k])
 }
 
@@ -259,6 +278,12 @@ func (e *Emitter) watch(op, input string, render func() string) {
 
 func (e *Emitter) emit(op, input, goOut string) {
 	e.checkRetained()
+	if slotOverrun {
+		// (noticed when the slot is next filled: attributed to the line being written now, the call
+		// at fault is this one or the one before it on the same slot)
+		slotOverrun = false
+		goOut = "(wrote-past-the-end-of-an-argument " + goOut + ")"
+	}
 	e.rawEmit(op, input, goOut)
 }
 
